@@ -11,7 +11,11 @@ CLAIMS = {
     },
     'C16': {
         'text': 'Serial-number algebra proved in Lean on definitions regenerated from util.go on every run (both widths, all values); '
-                'translator validated against the Go functions on boundary and random inputs; component shift-invariance by theorem on the L0 models.',
+                'translator validated against the Go functions on boundary and random inputs; component shift-invariance by theorem on the L0 models. '
+                'Loss recovery (Props/C16rack.lean): every function of the RACK / RACK-timer / PTO / TLR model (Model/Rack.lean) and every run commutes with adding a '
+                'constant to all TSNs of state and inputs, marked TSNs shift along; the initial state shifts with the initial TSN (the RACK high-watermark starts at '
+                'tsn-1: defect D20, fixed). The same is observed on the implementation: every direct-drive sequence runs as a shift pair and the white-box RACK/PTO/TLR '
+                'snapshots (TSNs relative to the initial TSN) must be identical line by line.',
         'note': NOTE_COMMON,
         'technique': 'Lean 4 proof (bv_omega over BitVec) on translator-generated defs + differential replay',
     },
@@ -70,7 +74,24 @@ def _e2e(text):
 
 
 CLAIMS.update({
-    'C02': _e2e('After the fault prefix ends every reliable message is read and both sides report zero buffered/pending/in-flight bytes within heal + 600 s of virtual time (blackouts > 60 s, zero-window readers, 40 % loss, reordering).'),
+    'C02': dict(_e2e('After the fault prefix ends every reliable message is read and both sides report zero buffered/pending/in-flight bytes within heal + 600 s of virtual time (blackouts > 60 s, zero-window readers, 40 % loss, reordering). '
+        'LOSS-RECOVERY COMPONENT (proof, RACK / RACK timer / PTO / TLR gate only: Props/C02rack.lean on Model/Rack.lean, whose conditions and formulas are regenerated from onRackAfterSACK / onRackTimeoutLocked / '
+        'onPTOTimerLocked / schedulePTOAfterSendLocked / tlr*Locked / the RTT part of processSelectiveAck on every run, and which is compared with a white-box snapshot of the real Association after '
+        'every op of the direct-drive harness): RACK marks only outstanding original transmissions and only when a chunk sent more than the reordering window later was delivered '
+        '(C02_rack_marks_only_outstanding, C02_rack_loss_sound, C02_rack_never_marks_newest); the window stays in [0, SRTT] (C02_reownd_bounded); the RACK timer is armed whenever the list is non-empty, '
+        'with the exact deadline (C02_rack_timer_armed); send-time order of the list and "no list entry satisfies the loss test" are invariants of every admissible run (C02_rack_invariant); '
+        'PTO flags the last outstanding chunk when nothing is pending (C02_pto_probe_progress_partial); the TLR gate admits the first request of every gather and opens when the episode ends (C02_tlr_not_forever). '
+        'Two full-strength statements are FALSE of the code and proved false: the RACK timer callback never marks anything in any reachable state (C02_rack_timer_inert, witness '
+        'C02_rack_timer_overdue_witness, replayed from corpus/C02), and a PTO that finds data pending flags nothing and is not re-armed even when the window blocks new data '
+        '(C02_pto_no_probe_when_pending, replayed from corpus/C02); in both cases recovery falls back to the next SACK or T3, which is why the e2e liveness predicate still holds. '
+        'These component theorems say nothing about end-to-end liveness.'),
+        technique='Lean 4 proof (walk lemmas, invariant + induction over all operation lists of the loss-recovery component, decide on witnesses) on translator-generated conditions + white-box model/implementation differential replay; system level: seeded fault-schedule exploration in virtual time'),
+    'C06': dict(_e2e('SYSTEM LEVEL (exploration, synctest e2e + PolicySpec on the wire): unordered / partially reliable streams: reads must match distinct written messages (subsequence for ordered), DCEP always delivered in order; transmissions per chunk within the policy (known finding D14). '
+        'COMPONENT LEVEL (supporting theorems, one clause: "abandoned chunks are not skipped by one of the retransmission paths"): Props/C06rack.lean on Model/Rack.lean - RACK on a SACK, the RACK timer, the PTO and T3 flag '
+        'only chunks that are neither acknowledged nor abandoned and change nothing else in the chunk store (C06_rack_skips_abandoned, C06_rack_dead_chunks_untouched, C06_rack_sack_marks_outstanding, '
+        'C06_t3_skips_abandoned); model tied to the code by white-box snapshots after every op, including sequences with limited-retransmission and timed streams. '
+        'NOT proved: reassembly integrity for unordered delivery, at-most-once, the N+1 transmission bound (C06_* of DESIGN §5); the claimed level therefore stays exploration, the theorems are supporting.'),
+        technique='Lean 4 proof (characterisation of the marking walk, case analysis of the PTO) + white-box model/implementation differential replay; system level: seeded exploration + Lean predicates'),
     'C07': _e2e('Partial-reliability scenarios: a message that was not delivered must be one the sender told the peer to skip (stream entry or cumulative point of a FORWARD-TSN / I-FORWARD-TSN); everything else is delivered.'),
     'C08': _e2e('Graceful shutdown with data still queued, one-sided and crossed, under faults: Shutdown()==nil implies all earlier writes read in order before EOF; both sides closed; late writes/OpenStream rejected and never delivered.'),
     'C09': _e2e('Close / Abort / transport read failure / write failure injected right after the k-th wire event of runs that go through handshake, transfer, stream reset and shutdown, with callers parked in Connect, Accept, Read, Write, Shutdown: everything returns, no goroutine of the package survives, no write to a closed conn, Close idempotent, ABORT cause reaches the peer.'),
@@ -156,7 +177,9 @@ SENDER_NOTE = (NOTE_COMMON + ' The L0 model Model/Sender.lean is hand-written (s
                'callback count) and the DATA packets of every gather (lengths, TSNs, fragments) are compared with the implementation. '
                'ORACLES (theorems quantify over all values; the harness records what the real code decided): the TLR burst budget tlrAllowSendLocked '
                '(arbitrary state machine), which pending chunk peek() returns (the pending queue is modelled elsewhere), RACK / PTO loss marks, the number of '
-               'T3 expiries while the clock advances. Not modelled: blockWrite, SHUTDOWN cumulative ack, RTT/RACK bookkeeping, timers, goroutines.')
+               'T3 expiries while the clock advances. The budget and the marks are no longer free: Model/Rack.lean computes them and Driver/Rack.lean compares '
+               '(white-box rk line after every op). Not modelled in the sender model: blockWrite, SHUTDOWN cumulative ack, goroutines; RTT/RACK bookkeeping and the '
+               'RACK/PTO deadlines live in Model/Rack.lean, T3 in the timer model of C19.')
 
 CLAIMS.update({
     'C10': {
@@ -169,6 +192,10 @@ CLAIMS.update({
                 'common header; packetize emits fragments of 1..maxPayloadSize bytes adding up to the message), C10_cwnd_floor (MTU <= cwnd), C10_loss_response '
                 '(T3: ssthresh = max(cwnd/2, 4 MTU), cwnd = max(MTU, MinCwnd); entry to fast recovery: same ssthresh formula, cwnd = max(ssthresh, MinCwnd), once), '
                 'C10_retransmit_window (T3 retransmissions of one gather carry at most min(cwnd, rwnd) user bytes, or are the single probe chunk). '
+                'TLR burst budget (Props/C10tlr.lean, on tlrAllowSendLocked assembled from generated expression sites and proved equal to the gate of the sender model): per gather, '
+                '4 x admitted estimated bytes <= max(budget, 4 x first admitted request) (C10_tlr_budget_bound; <= max(units/4, 1) MTUs when every request is <= MTU), burst units stay in [8,16] / [5,8] '
+                'quarter-MTUs in every reachable state (C10_tlr_units_bounded), the episode ends exactly when the cumulative point reaches the highest TSN outstanding at its start (C10_tlr_finish, '
+                'C10_tlr_begin_end); the budget is per gather, not per RTT phase (C10_tlr_budget_is_per_gather). The tlr/bud oracle values of every gather are checked against the model. '
                 'Plus the executable predicate P_C10 on the implementation outputs after every op, and e2e transfer runs.',
         'note': SENDER_NOTE + ' "Cut" is formalised as the RFC 4960 7.2.3 formula (a literal "never larger than before" is false by design below 4 MTU). Loss signals = T3 expiry and '
                 'third miss indication outside fast recovery; RACK/PTO marks do not touch cwnd in this implementation (oracle inputs). Window theorems assume the ghost flag '
